@@ -89,71 +89,77 @@ structure ExtsOut where
   stop : Option (ExtErr × Layer)      -- lax: where and why the walk stopped
 deriving DecidableEq, Repr, Inhabited
 
+/-- struct mode: does a destination-options (60) / routing (43) header still fit `Ipv6Extensions`? -/
+def rawFits (nh : Nat) (slots : ExtSlots) : Bool :=
+  if nh = 60 then
+    if slots.routing.isSome then ¬ slots.finalDest.isSome else ¬ slots.dest.isSome
+  else ¬ slots.routing.isSome
+
+def rawLayer (nh : Nat) : Layer := if nh = 60 then .ipv6DestOptionsHeader else .ipv6RouteHeader
+
+/-- the slot a destination-options / routing header is stored in -/
+def rawStore (nh : Nat) (slots : ExtSlots) (w : Win) : ExtSlots :=
+  if nh = 60 then
+    if slots.routing.isSome then
+      { hbh := slots.hbh, dest := slots.dest, routing := slots.routing,
+        finalDest := some w, frag := slots.frag, auth := slots.auth }
+    else
+      { hbh := slots.hbh, dest := some w, routing := slots.routing,
+        finalDest := slots.finalDest, frag := slots.frag, auth := slots.auth }
+  else
+    { hbh := slots.hbh, dest := slots.dest, routing := some w,
+      finalDest := slots.finalDest, frag := slots.frag, auth := slots.auth }
+
+def fragStore (slots : ExtSlots) (w : Win) : ExtSlots :=
+  { hbh := slots.hbh, dest := slots.dest, routing := slots.routing,
+    finalDest := slots.finalDest, frag := some w, auth := slots.auth }
+
+def authStore (slots : ExtSlots) (w : Win) : ExtSlots :=
+  { hbh := slots.hbh, dest := slots.dest, routing := slots.routing,
+    finalDest := slots.finalDest, frag := slots.frag, auth := some w }
+
+def extsDone (nh : Nat) (frag : Bool) (slots : ExtSlots) (o l : Nat) : ExtsOut :=
+  { next := nh, frag := frag, rest := ⟨o, l⟩, slots := slots, stop := none }
+
+def extsFail (nh : Nat) (frag : Bool) (slots : ExtSlots) (o l : Nat) (e : ExtErr) (ly : Layer) : ExtsOut :=
+  { next := nh, frag := frag, rest := ⟨o, l⟩, slots := slots, stop := some (e, ly) }
+
+def extLenErr (req l0 l : Nat) (layer : Layer) : ExtErr :=
+  .len { req := req, len := l, src := .slice, layer := layer, off := l0 - l }
+
 /-- The loop of `Ipv6ExtensionsSlice::from_slice(_lax)` (`sm = false`) and of
     `Ipv6Extensions::from_slice(_lax)` (`sm = true`: a header that no longer fits the struct ends
     the walk without an error).  `l0` = length of the start slice (error offsets are
     `start_slice.len() - rest.len()`); `(o, l)` = rest. -/
 def extsLoop (g : Mem) (sm : Bool) (l0 : Nat) (nh : Nat) (frag : Bool) (slots : ExtSlots)
     (o l : Nat) : ExtsOut :=
-  let done : ExtsOut := { next := nh, frag := frag, rest := ⟨o, l⟩, slots := slots, stop := none }
-  let fail (e : ExtErr) (ly : Layer) : ExtsOut :=
-    { next := nh, frag := frag, rest := ⟨o, l⟩, slots := slots, stop := some (e, ly) }
-  if nh = 0 then fail .hopByHop .ipv6HopByHopHeader
+  if nh = 0 then extsFail nh frag slots o l .hopByHop .ipv6HopByHopHeader
   else if nh = 60 ∨ nh = 43 then
-    -- struct mode: does the header still fit?
-    let fits : Bool :=
-      if nh = 60 then
-        if slots.routing.isSome then ¬ slots.finalDest.isSome else ¬ slots.dest.isSome
-      else ¬ slots.routing.isSome
-    if sm ∧ ¬ fits then done
-    else
-      let ly : Layer := if nh = 60 then .ipv6DestOptionsHeader else .ipv6RouteHeader
-      if h8 : l < 8 then
-        fail (.len { req := 8, len := l, src := .slice, layer := .ipv6ExtHeader, off := l0 - l }) ly
-      else
-        let hl := (g (o + 1) + 1) * 8
-        if hl' : l < hl then
-          fail (.len { req := hl, len := l, src := .slice, layer := .ipv6ExtHeader, off := l0 - l }) ly
-        else
-          let slots' : ExtSlots :=
-            if nh = 60 then
-              if slots.routing.isSome then
-                { hbh := slots.hbh, dest := slots.dest, routing := slots.routing,
-                  finalDest := some ⟨o, hl⟩, frag := slots.frag, auth := slots.auth }
-              else
-                { hbh := slots.hbh, dest := some ⟨o, hl⟩, routing := slots.routing,
-                  finalDest := slots.finalDest, frag := slots.frag, auth := slots.auth }
-            else
-              { hbh := slots.hbh, dest := slots.dest, routing := some ⟨o, hl⟩,
-                finalDest := slots.finalDest, frag := slots.frag, auth := slots.auth }
-          extsLoop g sm l0 (g o) frag slots' (o + hl) (l - hl)
-  else if nh = 44 then
-    if sm ∧ slots.frag.isSome then done
+    if sm ∧ ¬ rawFits nh slots then extsDone nh frag slots o l
     else if h8 : l < 8 then
-      fail (.len { req := 8, len := l, src := .slice, layer := .ipv6FragHeader, off := l0 - l })
-        .ipv6FragHeader
+      extsFail nh frag slots o l (extLenErr 8 l0 l .ipv6ExtHeader) (rawLayer nh)
+    else if hl' : l < (g (o + 1) + 1) * 8 then
+      extsFail nh frag slots o l (extLenErr ((g (o + 1) + 1) * 8) l0 l .ipv6ExtHeader) (rawLayer nh)
     else
-      let slots' : ExtSlots :=
-        { hbh := slots.hbh, dest := slots.dest, routing := slots.routing,
-          finalDest := slots.finalDest, frag := some ⟨o, 8⟩, auth := slots.auth }
-      extsLoop g sm l0 (g o) (frag || fragIsFragmenting g o) slots' (o + 8) (l - 8)
+      extsLoop g sm l0 (g o) frag (rawStore nh slots ⟨o, (g (o + 1) + 1) * 8⟩)
+        (o + (g (o + 1) + 1) * 8) (l - (g (o + 1) + 1) * 8)
+  else if nh = 44 then
+    if sm ∧ slots.frag.isSome then extsDone nh frag slots o l
+    else if h8 : l < 8 then
+      extsFail nh frag slots o l (extLenErr 8 l0 l .ipv6FragHeader) .ipv6FragHeader
+    else
+      extsLoop g sm l0 (g o) (frag || fragIsFragmenting g o) (fragStore slots ⟨o, 8⟩) (o + 8) (l - 8)
   else if nh = 51 then
-    if sm ∧ slots.auth.isSome then done
+    if sm ∧ slots.auth.isSome then extsDone nh frag slots o l
     else if h12 : l < 12 then
-      fail (.len { req := 12, len := l, src := .slice, layer := .ipAuthHeader, off := l0 - l })
-        .ipAuthHeader
-    else if g (o + 1) < 1 then fail .authZero .ipAuthHeader
+      extsFail nh frag slots o l (extLenErr 12 l0 l .ipAuthHeader) .ipAuthHeader
+    else if g (o + 1) < 1 then extsFail nh frag slots o l .authZero .ipAuthHeader
+    else if hl' : l < (g (o + 1) + 2) * 4 then
+      extsFail nh frag slots o l (extLenErr ((g (o + 1) + 2) * 4) l0 l .ipAuthHeader) .ipAuthHeader
     else
-      let hl := (g (o + 1) + 2) * 4
-      if hl' : l < hl then
-        fail (.len { req := hl, len := l, src := .slice, layer := .ipAuthHeader, off := l0 - l })
-          .ipAuthHeader
-      else
-        let slots' : ExtSlots :=
-          { hbh := slots.hbh, dest := slots.dest, routing := slots.routing,
-            finalDest := slots.finalDest, frag := slots.frag, auth := some ⟨o, hl⟩ }
-        extsLoop g sm l0 (g o) frag slots' (o + hl) (l - hl)
-  else done
+      extsLoop g sm l0 (g o) frag (authStore slots ⟨o, (g (o + 1) + 2) * 4⟩)
+        (o + (g (o + 1) + 2) * 4) (l - (g (o + 1) + 2) * 4)
+  else extsDone nh frag slots o l
 termination_by l
 decreasing_by all_goals omega
 
